@@ -80,6 +80,10 @@ descriptorLoop:
 	if !found {
 	descriptorLoop2:
 		for _, descriptor := range details.Descriptors {
+			if descriptor.TypeFn != nil {
+				// Descriptors with a type function have no argument types to approximately match against.
+				continue
+			}
 			argTypes := argumentTypes
 			if descriptor.Strict {
 				argTypes = nonNullableArgumentTypes
